@@ -854,6 +854,51 @@ impl<'a, 'b, 'ast> Visit<'ast> for BodyV<'a, 'b> {
                 }
             }
         }
+        // R25: `X.and_then(|p| B)` / `X.or_else(|p| B)` / `X.unwrap_or_else(|p| B)` whose closure
+        // body performs a file-system mutation -> the combinator's definition written out as a
+        // `match` (Verus has no closures that capture the mutable ghost world)
+        if (name == "and_then" || name == "or_else" || name == "unwrap_or_else") && e.args.len() == 1 && e.turbofish.is_none() {
+            if let Expr::Closure(c) = &e.args[0] {
+                let no_modes: HashMap<String, String> = HashMap::new();
+                let mut sc = EffScan { cfg: self.fc.cfg, auto_modes: &no_modes, mode: 0 };
+                sc.visit_expr(&c.body);
+                let ext_mut = {
+                    // helper functions of this file with a mutable world
+                    let mut is = HashSet::new();
+                    IdentScan { out: &mut is }.visit_expr(&c.body);
+                    is.iter().any(|n| self.fc.extra_eff.get(n).map(|m| m.starts_with("mut")).unwrap_or(false))
+                };
+                if (sc.mode == 2 || ext_mut) && c.asyncness.is_none() && c.inputs.len() <= 1 && self.world == "mut" {
+                    let whole = range_of(e);
+                    let recv = range_of(&*e.receiver);
+                    let body = range_of(&*c.body);
+                    let pat = match c.inputs.first() {
+                        Some(Pat::Type(pt)) => self.fc.text(range_of(&*pt.pat)).to_string(),
+                        Some(p) => self.fc.text(range_of(p)).to_string(),
+                        None => String::new(),
+                    };
+                    let (pre, mid, post) = match (name.as_str(), c.inputs.len()) {
+                        ("and_then", 1) => ("(match crate::shims::ctl::Splittable::split(".to_string(),
+                                            format!(") {{ crate::shims::ctl::Split::Go({pat}) => "),
+                                            ", crate::shims::ctl::Split::Stop(__b) => crate::shims::ctl::FromStop::from_stop(__b) })".to_string()),
+                        ("or_else", 1) => ("(match ".to_string(), format!(" {{ Ok(__v) => Ok(__v), Err({pat}) => "), " })".to_string()),
+                        ("or_else", 0) => ("(match ".to_string(), " { Some(__v) => Some(__v), None => ".to_string(), " })".to_string()),
+                        ("unwrap_or_else", 1) => ("(match ".to_string(), format!(" {{ Ok(__v) => __v, Err({pat}) => "), " })".to_string()),
+                        ("unwrap_or_else", 0) => ("(match ".to_string(), " { Some(__v) => __v, None => ".to_string(), " })".to_string()),
+                        _ => (String::new(), String::new(), String::new()),
+                    };
+                    if !pre.is_empty() {
+                        self.fc.edit_ord(whole.0, recv.0, pre, "R25.combinator", -40);
+                        self.fc.edit(recv.1, body.0, mid, "R25.combinator");
+                        self.fc.edit(body.1, whole.1, post, "R25.combinator");
+                        self.note_call(&name);
+                        self.visit_expr(&e.receiver);
+                        self.visit_expr(&c.body);
+                        return;
+                    }
+                }
+            }
+        }
         // R10 iterator entry points
         if let Some(newname) = self.fc.cfg.iter_renames.get(&name).cloned() {
             let r = br(e.method.span());
